@@ -25,6 +25,12 @@ Proof.
   injection E as -> E. now rewrite (IH b E).
 Qed.
 
+Lemma map_FV_tail_inj : forall (a b : list string) x y, map FV a ++ [FX x] = map FV b ++ [FX y] -> a = b.
+Proof.
+  induction a as [|u a IH]; intros [|v b] x y E; simpl in E; try discriminate; auto.
+  injection E as -> E. now rewrite (IH b x y E).
+Qed.
+
 Lemma cc_key_inj H a b k :
   injective H -> cc_key H a = Some k -> cc_key H b = Some k -> collide (cc_fields a) (cc_fields b) = false ->
   cc_result a = cc_result b.
@@ -33,7 +39,8 @@ Proof.
   destruct (cc_enabled a); [|discriminate]. destruct (cc_enabled b); [|discriminate].
   injection Ka as <-. injection Kb as E. apply hex_inj in E. apply Hinj in E. symmetry in E.
   apply (collide_inj _ _ G) in E. unfold cc_fields in E. simpl in E.
-  injection E as Ei Es Eu Esc. apply map_FV_inj in Esc.
+  remember (cc_ttl_bytes (cc_ttl a)) as ta. remember (cc_ttl_bytes (cc_ttl b)) as tb.
+  injection E as Ei Es Eu Esc. apply map_FV_tail_inj in Esc.
   unfold cc_result, cc_token. now rewrite Ei, Es, Eu, Esc.
 Qed.
 
@@ -68,8 +75,8 @@ Theorem cc_F4_refuted :
 Proof.
   exists (w_cc ["ab"; "c"]), (w_cc ["a"; "bc"]). split; [reflexivity|].
   intros H E. rewrite cc_run_arun in E.
-  apply (incompatible_not_transparent (cc_areq H (w_cc ["ab"; "c"])) (cc_areq H (w_cc ["a"; "bc"]))
-           (hex (H "cidsechttp://idp/t/aabc")) (cc_result (w_cc ["ab"; "c"]))); try reflexivity.
+  eapply (incompatible_not_transparent (cc_areq H (w_cc ["ab"; "c"])) (cc_areq H (w_cc ["a"; "bc"]))
+            _ (cc_result (w_cc ["ab"; "c"]))); try reflexivity.
   - simpl. discriminate.
   - simpl in E. simpl. exact E.
 Qed.
@@ -329,7 +336,9 @@ Proof.
   destruct (jk_enabled c); [|discriminate]. destruct (jk_enabled c'); [|discriminate]. simpl in G.
   apply orb_false_iff in G as [G _].
   injection K as <-. injection K' as E. apply hex_inj in E. apply Hinj in E. symmetry in E.
-  apply (collide_inj _ _ G) in E. unfold jk_fields in E. injection E as _ Eu Ek. auto.
+  apply (collide_inj _ _ G) in E. unfold jk_fields in E.
+  remember (ttl_hash (jk_ttl c)) as ta. remember (ttl_hash (jk_ttl c')) as tb.
+  injection E as _ Eu Ek _. auto.
 Qed.
 
 Lemma jk_lookup_ext w c t c' t' :
@@ -363,38 +372,48 @@ Proof.
   { intros cch' N k0 r0 L0. destruct (N k0 r0 L0) as [L|(K0 & Lk0 & R0)].
     - destruct (B k0 r0 L) as (x & I & Kx & Lx & Rx). exists x. splits; auto. apply in_or_app; auto.
     - exists (c, t). splits; auto. apply in_or_app; right; left; reflexivity. }
+  (* the cache after a fetch for (c, t) under key k *)
+  assert (Fetched : forall k, jk_key H c t = Some k ->
+            jk_backed H w (seen ++ [(c, t)])
+              (match jk_lookup w c t with
+               | JKKey o tr => if jk_rejects c tr then cch else (k, jk_key_result o tr) :: cch
+               | _ => cch
+               end)).
+  { intros k K. apply Keep. intros k0 r0 L0. destruct (jk_lookup w c t) as [| |o tr] eqn:Lk; auto.
+    destruct (jk_rejects c tr) eqn:R; auto.
+    simpl in L0. destruct (String.eqb_spec k0 k) as [->|N]; auto.
+    injection L0 as <-. right. simpl. auto. }
   destruct (jk_key H c t) as [k|] eqn:K.
   - destruct (lookup k cch) as [r|] eqn:L.
-    + cbn [map sr_out fst snd]. f_equal.
-      * destruct (B k r L) as ([c' t'] & I & K' & Lk & Rk). simpl in K', Lk, Rk.
-        assert (Ic' : In (c', t') (seen ++ (c, t) :: h)) by (apply in_or_app; auto).
-        assert (Ic : In (c, t) (seen ++ (c, t) :: h)) by (apply in_or_app; right; left; reflexivity).
-        assert (P : p_jk_F4 H (c', t') (c, t) = false).
-        { destruct (exists_pair_false _ _ (c', t') (c, t) G Ic' Ic) as [E|[P _]]; auto.
-          injection E as -> ->. apply p_jk_F4_self. }
-        destruct (jk_key_inj H c' t' c t k Hinj K' K P) as [Eu Ek].
-        unfold jk_fresh. rewrite <- (jk_lookup_ext w c' t' c t Eu Ek), Lk.
-        destruct G11 as [->|G11]; simpl.
-        -- reflexivity.
-        -- (* without the repair: the two instances validate alike, and the fetching one accepted the key *)
-           assert (Ev : jk_validate c' = jk_validate c).
-           { destruct (exists_pair_false _ _ (c', t') (c, t) G11 Ic' Ic) as [E|[P11 _]]; [now injection E as -> _|].
-             unfold p_F11 in P11. simpl in P11. unfold jk_key in K, K'.
-             destruct (jk_enabled c') eqn:E1; [|discriminate]. destruct (jk_enabled c) eqn:E2; [|discriminate].
-             injection K as K. injection K' as K'. simpl in P11.
-             assert (Ef : jk_fields H c' t' = jk_fields H c t).
-             { unfold p_jk_F4 in P. simpl in P. rewrite E1, E2 in P. simpl in P. apply orb_false_iff in P as [P _].
-               apply (collide_inj _ _ P). apply Hinj. apply hex_inj. congruence. }
-             rewrite Ef in P11. assert (T : flds_eqb (jk_fields H c t) (jk_fields H c t) = true) by now apply flds_eqb_eq.
-             rewrite T in P11. simpl in P11. apply negb_false_iff in P11. now apply Bool.eqb_prop in P11. }
-           assert (Rc : jk_rejects c (rs_active r) = false) by (unfold jk_rejects in *; now rewrite <- Ev).
-           rewrite Rc. now rewrite andb_false_r.
-      * apply (IH (seen ++ [(c, t)])); auto; apply Keep; auto.
-    + cbn [map sr_out fst snd]. f_equal. apply (IH (seen ++ [(c, t)])); auto; apply Keep.
-      intros k0 r0 L0. destruct (jk_lookup w c t) as [| |o tr] eqn:Lk; auto.
-      destruct (jk_rejects c tr) eqn:R; auto.
-      simpl in L0. destruct (String.eqb_spec k0 k) as [->|N]; auto.
-      injection L0 as <-. right. simpl. auto.
+    + destruct (fx11 && jk_rejects c (rs_active r)) eqn:Ign.
+      * (* the entry is ignored: a fetch *)
+        cbn [map sr_out fst snd]. f_equal. apply (IH (seen ++ [(c, t)])); auto.
+      * cbn [map sr_out fst snd]. f_equal.
+        -- destruct (B k r L) as ([c' t'] & I & K' & Lk & Rk). simpl in K', Lk, Rk.
+           assert (Ic' : In (c', t') (seen ++ (c, t) :: h)) by (apply in_or_app; auto).
+           assert (Ic : In (c, t) (seen ++ (c, t) :: h)) by (apply in_or_app; right; left; reflexivity).
+           assert (P : p_jk_F4 H (c', t') (c, t) = false).
+           { destruct (exists_pair_false _ _ (c', t') (c, t) G Ic' Ic) as [E|[P _]]; auto.
+             injection E as -> ->. apply p_jk_F4_self. }
+           destruct (jk_key_inj H c' t' c t k Hinj K' K P) as [Eu Ek].
+           unfold jk_fresh. rewrite <- (jk_lookup_ext w c' t' c t Eu Ek), Lk.
+           assert (Rc : jk_rejects c (rs_active r) = false).
+           { destruct G11 as [->|G11]; [exact Ign|].
+             (* without the repair: the two instances validate alike, and the fetching one accepted the key *)
+             assert (Ev : jk_validate c' = jk_validate c).
+             { destruct (exists_pair_false _ _ (c', t') (c, t) G11 Ic' Ic) as [E|[P11 _]]; [now injection E as -> _|].
+               unfold p_F11 in P11. simpl in P11. unfold jk_key in K, K'.
+               destruct (jk_enabled c') eqn:E1; [|discriminate]. destruct (jk_enabled c) eqn:E2; [|discriminate].
+               injection K as K. injection K' as K'. simpl in P11.
+               assert (Ef : jk_fields H c' t' = jk_fields H c t).
+               { unfold p_jk_F4 in P. simpl in P. rewrite E1, E2 in P. simpl in P. apply orb_false_iff in P as [P _].
+                 apply (collide_inj _ _ P). apply Hinj. apply hex_inj. congruence. }
+               rewrite Ef in P11. assert (T : flds_eqb (jk_fields H c t) (jk_fields H c t) = true) by now apply flds_eqb_eq.
+               rewrite T in P11. simpl in P11. apply negb_false_iff in P11. now apply Bool.eqb_prop in P11. }
+             unfold jk_rejects in *. now rewrite <- Ev. }
+           now rewrite Rc.
+        -- apply (IH (seen ++ [(c, t)])); auto; apply Keep; auto.
+    + cbn [map sr_out fst snd]. f_equal. apply (IH (seen ++ [(c, t)])); auto.
   - cbn [map sr_out fst snd]. f_equal. apply (IH (seen ++ [(c, t)])); auto; apply Keep; auto.
 Qed.
 
